@@ -113,6 +113,17 @@ CHECKS['C02'] = dict(
         'time/select) stands for real time; one client session; zlib as oracle; Coq kernel; translator; extraction; gcc.',
    technique='Coq proof (progress/exactly-once by induction over clean rounds; timer state machine lemmas) + whole-system differential correspondence and timed oracle on the real programs',
    design='4/C02')
+CHECKS['C14'] = dict(
+   text='Coq theorems over arbitrary event histories of the server model (Server.v: DNS queries, raw frames, tun packets, sweeps, ticks; any '
+        'oracle for login/zlib): multiset ledger invariant -- for every query instance (address incl. port, id, name, type), answers sent + '
+        'copies still held <= copies received; events that carry no query only answer held queries; at most two queries (plus one remembered '
+        'duplicate each) held per session; lazy mode answers the older held query first, immediate mode answers at once or parks for the sweep; '
+        'id 0 ping/data queries are ignored and never held. Tied to iodined.c by per-event correspondence on server histories and an '
+        'implementation-level multiset oracle that parses every emitted datagram and matches it against unanswered received queries.',
+   note='Trusts: the oracle matches on (address, id, dotted question name, type); a label containing a dot byte is compared as dotted text; '
+        'Coq kernel; translator; extraction; gcc.',
+   technique='Coq proof (ledger invariant by Permutation/multiset counting over every handler, induction over histories), differential correspondence, implementation-level multiset oracle',
+   design='4/C14')
 NOT_YET = {}
 
 def main():
